@@ -18,8 +18,8 @@ from fsmc.explorer import ListSystem
 PID = "C06"
 RULE = ("states = (tissue, chain of similarity transforms up to the depth bound); transitions = one group element; "
         "non-trivial = pose differs from the original; classes = (tissue, chain signature)")
-BOUND = {"quick": "3 tissues (equilibrium, deformed, seeded) x both fits; 13 translations, 10 rotations (incl. tangent-aligned), 3 reflections, 6 scalings; chains to depth 2; dynamic: 6 time factors x 6 length factors",
-         "thorough": "6 tissues, 24 rotations, chains to depth 3"}
+BOUND = {"quick": "3 tissues (equilibrium, deformed, seeded) x both fits; 13 translations, 10 rotations (incl. tangent-aligned), 3 reflections, 6 scalings; chains to depth 2; dynamic: 6 time factors x 6 length factors; 7 translations applied IN PLACE to solved objects (as cm=True does) x 3 tissues x both fits",
+         "thorough": "6 tissues, 24 rotations, chains to depth 3; 13 in-place translations x 6 tissues x both fits"}
 ASSUMPTIONS = ["tensions / pressures are only compared where the non-negative optimum is unique in both poses",
                "coefficient tolerance: 1e-7 (taubinSVD); dlite: 1e-7 x (1 + 30 x translation in tissue sizes) on exact arcs, 1e-3 on deformed interfaces (leastsq termination); dlite beyond 1e2 tissue sizes is finding F8; tensions: 1e-9 x conditioning + 10 x coefficient deviation x conditioning",
                "dynamic tolerance: 3 x (5e-4 sqrt(rows)) / sigma_min of the augmented system (3-decimal rounding of the velocity term)"]
